@@ -163,6 +163,9 @@ class ConcurrentExecutor(ABC, Generic[CallableType, ResultType]):
         # Event-driven state tracking for when the executor is done
         self._completion_event = threading.Event()
         self._suspend_exception: SuspendExecution | None = None
+        # Non-Exception failure of a branch or of a resubmission (e.g. BackgroundThreadError
+        # when checkpointing has failed); re-raised by execute() in the calling thread
+        self._fatal_exception: BaseException | None = None
 
         # ExecutionCounters will keep track of completion criteria and on-going counters
         min_successful = self.completion_config.min_successful or len(self.executables)
@@ -211,10 +214,17 @@ class ConcurrentExecutor(ABC, Generic[CallableType, ResultType]):
         ]
         self._completion_event.clear()
         self._suspend_exception = None
+        self._fatal_exception = None
 
         def resubmitter(executable_with_state: ExecutableWithState) -> None:
             """Resubmit a timed suspended task."""
-            execution_state.create_checkpoint()
+            try:
+                execution_state.create_checkpoint()
+            except BaseException as e:  # noqa: BLE001
+                # Checkpointing failed: wake execute() so it raises instead of waiting forever
+                self._fatal_exception = e
+                self._completion_event.set()
+                return
             submit_task(executable_with_state)
 
         thread_executor = ThreadPoolExecutor(max_workers=max_workers)
@@ -249,6 +259,9 @@ class ConcurrentExecutor(ABC, Generic[CallableType, ResultType]):
                     future.cancel()
 
                 # Suspend execution if everything done and at least one of the tasks raised a suspend exception.
+                if self._fatal_exception:
+                    raise self._fatal_exception
+
                 if self._suspend_exception:
                     raise self._suspend_exception
 
@@ -333,6 +346,12 @@ class ConcurrentExecutor(ABC, Generic[CallableType, ResultType]):
         except Exception as e:  # noqa: BLE001
             exe_state.fail(e)
             self.counters.fail_task()
+        except BaseException as e:  # noqa: BLE001
+            # Not a branch outcome (e.g. BackgroundThreadError: checkpointing failed).
+            # Wake execute() so it re-raises it instead of waiting forever.
+            self._fatal_exception = e
+            self._completion_event.set()
+            return
 
         # Check if execution should complete or suspend
         if self.counters.should_complete():
